@@ -32,17 +32,25 @@ Proof. exact base_value_bad_spec. Qed.
 Print Assumptions base_value_range.
 
 (* ---- structs: decode (encode v ++ anything) = v, size v = |encode v|, encodings are non-empty ----
-   PARTIAL: proved for the fragment `adm` of ANY schema (Cats/StructRoundTrip.v): aliases, enums, structs without a parent
-   (flat_struct) and concrete structs with an abstract parent whose first member is the @size member (based_struct: the decoder's
-   window [4:size_] and the (window_start, window_end) hand-over to the child are part of the proof) - provided their members are
-   plain or reserved integers, count / byte-size members, named members of the fragment, byte arrays and counted typed arrays
-   (keyed or not) of the fragment, nested to any depth n, for every interpreter fuel >= 2n + 1.
-   Concrete structs whose abstract parent has NO @size member (based_nosize_struct: NEM transactions; the parent header is read with
-   the window [consumed, len(buffer))) are covered too.
+   PARTIAL: proved for the fragment `adm` of ANY schema (Cats/StructRoundTrip.v), nested to any depth n, for every interpreter fuel >= 2n + 1:
+   aliases, enums and CONCRETE structs that are
+   - without a parent (flat_struct), or
+   - children of an abstract parent whose first member is the @size member (based_struct: the decoder's window [4:size_] and the
+     (window_start, window_end) hand-over to the child are part of the proof), or
+   - children of an abstract parent WITHOUT @size member (based_nosize_struct, NEM: window [consumed, len(buffer))),
+   provided every member is of one of the kinds of Cats/StructProofs.v (`classify`):
+     plain / reserved integers; count and byte-size members of arrays; named members of the fragment; byte arrays; counted typed arrays
+     (keyed or not) of the fragment;
+     sizeof members and the named member they measure (decoded from its first <sizeof> bytes);
+     computed (@sizeref) members and the named struct member conditional on them (`X if 0 not equals X_size`: absent <-> None <-> size 0);
+     byte arrays conditional on their own size member (`X if N not equals X_size`: absent <-> None <-> size member = N).
+   The proof also shows that the size of an admissible value is positive whenever it is defined.
    On the shipped schemas this covers 71 of the 84 Symbol structs (every transaction except the aggregates and namespace
-   registration; see fragment_examples) and 14 of the 35 NEM structs.  NOT yet proved (full statement: the same for every wf schema):
-   factory decoding, fill / aligned arrays, conditionals, sizeof, sizeref - those constructs are covered
-   by the correspondence with the generated codecs only. *)
+   registration; 4 of the others are abstract) and all 33 concrete NEM structs (35 with the 2 abstract ones); see fragment_examples.
+   NOT yet proved (full statement: the same for every wf schema, and TFactory.deserialize for abstract types):
+   factory decoding (hence values holding a member / element of ABSTRACT static type: NEM multisig inner transactions, Symbol aggregates
+   and blocks), fill arrays, aligned / byte-constrained arrays, conditionals guarded by a LATER member (Symbol namespace registration)
+   - those constructs are covered by the correspondence with the generated codecs only. *)
 From Symv Require Import Cats.StructProofs Cats.StructRoundTrip Cats.StructDecide Gen.SchemaSc Gen.SchemaNc.
 Open Scope string_scope.
 Open Scope list_scope.
@@ -50,7 +58,7 @@ Open Scope Z_scope.
 
 Theorem dec_enc_flat_partial : forall tm n k t v b rest, (2 * n + 1 <= k)%nat -> adm tm n t v -> enc ops_now tm k t v = Ok b ->
   dec ops_now tm k t (b ++ rest) = Ok v /\ size ops_now tm k t v = Ok (Z.of_nat (length b)) /\ (0 < length b)%nat.
-Proof. exact (fun tm n k t v b rest Hk => RT_all tm n k Hk t v b rest). Qed.
+Proof. exact (fun tm n k t v b rest Hk Hadm => proj1 (RT_all tm n k Hk t v Hadm) b rest). Qed.
 Print Assumptions dec_enc_flat_partial.
 
 (* the fragment is decidable: membership of a concrete struct / value is a kernel computation *)
@@ -59,7 +67,9 @@ Proof. exact admb_sound. Qed.
 Print Assumptions fragment_decidable.
 
 (* non-vacuity on the shipped schemas: a Symbol mosaic, a Symbol address-resolution statement with two entries (counted array of structs),
-   a NEM mosaic id (nested struct with a byte array sized by a count member) are admissible values and round-trip *)
+   a NEM mosaic id (nested struct with a byte array sized by a count member), two Symbol transactions (@size window), a NEM cosignature
+   (parent without @size), a NEM mosaic (sizeof + sized member), NEM transfers with and without message (@sizeref + conditional),
+   a NEM mosaic definition (levy), NEM namespace registrations with and without parent name (conditional byte array) are admissible *)
 Definition flat_names (tm : list decl) : list string :=
   flat_map (fun d => match d with DStruct s => if flat_structb tm s then [s_name s] else [] | _ => [] end) tm.
 
@@ -79,6 +89,12 @@ Example fragment_examples :
   /\ admb sc_schema 3 "TransferTransactionV1" (VStruct "TransferTransactionV1" [("signature", (VBytes [69; 207; 232; 97; 12; 136; 121; 72; 24; 59; 228; 55; 188; 39; 101; 102; 243; 131; 91; 5; 241; 18; 91; 115; 139; 177; 81; 201; 114; 44; 210; 198; 66; 230; 232; 100; 3; 192; 175; 237; 167; 104; 50; 63; 109; 124; 199; 44; 158; 164; 134; 8; 178; 42; 19; 225; 175; 215; 140; 249; 14; 111; 32; 219])); ("signer_public_key", (VBytes [17; 88; 171; 71; 240; 76; 225; 252; 44; 113; 224; 148; 84; 131; 159; 195; 106; 155; 72; 139; 254; 102; 210; 58; 2; 193; 14; 22; 205; 62; 251; 47])); ("version", (VInt (1))); ("network", (VInt (104))); ("type", (VInt (16724))); ("fee", (VInt (18446744073709551615))); ("deadline", (VInt (18446744073709551614))); ("recipient_address", (VBytes [126; 242; 252; 65; 173; 222; 243; 162; 55; 98; 214; 15; 133; 66; 11; 18; 99; 79; 116; 6; 145; 164; 181; 125])); ("mosaics", (VArr [(VStruct "UnresolvedMosaic" [("mosaic_id", (VInt (0))); ("amount", (VInt (1)))]); (VStruct "UnresolvedMosaic" [("mosaic_id", (VInt (1))); ("amount", (VInt (0)))]); (VStruct "UnresolvedMosaic" [("mosaic_id", (VInt (8057095391049714991))); ("amount", (VInt (1)))])])); ("message", (VBytes [110; 69; 119; 177; 92; 161; 161]))]) = true
   /\ admb sc_schema 3 "HashLockTransactionV1" (VStruct "HashLockTransactionV1" [("signature", (VBytes [199; 27; 161; 203; 25; 163; 37; 114; 219; 244; 128; 124; 23; 50; 239; 73; 125; 58; 25; 213; 233; 60; 104; 26; 182; 79; 63; 186; 226; 71; 213; 233; 134; 214; 186; 70; 148; 65; 122; 246; 58; 158; 183; 140; 139; 97; 142; 122; 97; 127; 100; 20; 31; 4; 138; 132; 217; 13; 19; 52; 113; 142; 37; 44])); ("signer_public_key", (VBytes [82; 120; 191; 247; 245; 181; 107; 173; 175; 253; 68; 38; 61; 229; 109; 227; 217; 132; 199; 77; 188; 78; 166; 148; 94; 218; 189; 49; 236; 165; 40; 42])); ("version", (VInt (1))); ("network", (VInt (152))); ("type", (VInt (16712))); ("fee", (VInt (18446744073709551614))); ("deadline", (VInt (5721180215677939408))); ("mosaic", (VStruct "UnresolvedMosaic" [("mosaic_id", (VInt (0))); ("amount", (VInt (5604217448433870570)))])); ("duration", (VInt (1))); ("hash", (VBytes [167; 144; 73; 112; 183; 167; 187; 60; 165; 225; 142; 224; 156; 234; 162; 113; 204; 127; 43; 185; 187; 12; 186; 202; 198; 99; 188; 199; 79; 90; 90; 45]))]) = true
   /\ admb nc_schema 3 "CosignatureV1" (VStruct "CosignatureV1" [("type", (VInt (4098))); ("version", (VInt (1))); ("network", (VInt (152))); ("timestamp", (VInt (1930549411))); ("signer_public_key", (VBytes [194; 107; 48; 249; 14; 199; 221; 1; 228; 136; 117; 52; 162; 15; 11; 13; 4; 195; 110; 216; 14; 113; 224; 253; 119; 176; 118; 112; 235; 148; 11; 213])); ("signature", (VBytes [51; 95; 151; 61; 170; 216; 97; 155; 145; 255; 201; 17; 245; 124; 206; 212; 88; 187; 191; 44; 224; 55; 83; 201; 189; 250; 15; 240; 22; 157; 201; 87; 86; 116; 6; 102; 118; 207; 176; 180; 235; 137; 2; 196; 66; 105; 218; 28; 246; 186; 102; 211; 248; 182; 212; 177; 0; 169; 234; 14; 117; 90; 92; 46])); ("fee", (VInt (18446744073709551614))); ("deadline", (VInt (2891000577))); ("other_transaction_hash", (VBytes [42; 8; 231; 7; 143; 127; 137; 56; 94; 176; 148; 35; 85; 81; 130; 86; 139; 150; 232; 164; 254; 242; 58; 12; 159; 197; 175; 215; 96; 132; 55; 129])); ("multisig_account_address", (VBytes [107; 221; 10; 115; 9; 203; 74; 18; 82; 228; 218; 112; 230; 114; 15; 202; 164; 218; 30; 152; 64; 108; 24; 156; 36; 39; 158; 152; 81; 213; 129; 66; 4; 19; 111; 235; 87; 19; 193; 102]))]) = true
+  /\ admb nc_schema 3 "Mosaic" (VStruct "Mosaic" [("mosaic_id", (VStruct "MosaicId" [("namespace_id", (VStruct "NamespaceId" [("name", (VBytes [32; 130]))])); ("name", (VBytes [253]))])); ("amount", (VInt (18446744073709551615)))]) = true
+  /\ admb nc_schema 4 "TransferTransactionV1" (VStruct "TransferTransactionV1" [("type", (VInt (257))); ("version", (VInt (1))); ("network", (VInt (152))); ("timestamp", (VInt (1930549411))); ("signer_public_key", (VBytes [194; 107; 48; 249; 14; 199; 221; 1; 228; 136; 117; 52; 162; 15; 11; 13; 4; 195; 110; 216; 14; 113; 224; 253; 119; 176; 118; 112; 235; 148; 11; 213])); ("signature", (VBytes [51; 95; 151; 61; 170; 216; 97; 155; 145; 255; 201; 17; 245; 124; 206; 212; 88; 187; 191; 44; 224; 55; 83; 201; 189; 250; 15; 240; 22; 157; 201; 87; 86; 116; 6; 102; 118; 207; 176; 180; 235; 137; 2; 196; 66; 105; 218; 28; 246; 186; 102; 211; 248; 182; 212; 177; 0; 169; 234; 14; 117; 90; 92; 46])); ("fee", (VInt (18446744073709551614))); ("deadline", (VInt (2891000577))); ("recipient_address", (VBytes [42; 8; 231; 7; 143; 127; 137; 56; 94; 176; 148; 35; 85; 81; 130; 86; 139; 150; 232; 164; 254; 242; 58; 12; 159; 197; 175; 215; 96; 132; 55; 129; 107; 221; 10; 115; 9; 203; 74; 18])); ("amount", (VInt (1))); ("message", (VStruct "Message" [("message_type", (VInt (2))); ("message", (VBytes [112; 230; 114; 15; 202; 164; 218; 30; 152; 64; 108; 24; 156; 36; 39; 158]))]))]) = true
+  /\ admb nc_schema 4 "TransferTransactionV1" (VStruct "TransferTransactionV1" [("type", (VInt (257))); ("version", (VInt (1))); ("network", (VInt (152))); ("timestamp", (VInt (4294967294))); ("signer_public_key", (VBytes [66; 4; 19; 111; 235; 87; 19; 193; 102; 177; 50; 105; 221; 99; 252; 53; 199; 151; 255; 8; 166; 205; 144; 9; 80; 102; 167; 69; 173; 219; 109; 136])); ("signature", (VBytes [49; 194; 176; 248; 120; 33; 20; 43; 68; 86; 85; 109; 137; 170; 130; 188; 173; 174; 58; 149; 120; 250; 69; 53; 164; 20; 208; 37; 194; 75; 64; 174; 58; 193; 39; 114; 41; 136; 186; 151; 58; 234; 141; 55; 23; 151; 6; 7; 46; 211; 58; 20; 96; 122; 215; 82; 59; 230; 85; 123; 81; 52; 222; 193])); ("fee", (VInt (18446744073709551614))); ("deadline", (VInt (4294967294))); ("recipient_address", (VBytes [244; 161; 51; 106; 162; 20; 13; 5; 151; 163; 230; 200; 160; 204; 32; 32; 162; 233; 57; 128; 110; 240; 182; 132; 93; 106; 157; 101; 126; 184; 41; 143; 45; 229; 46; 173; 116; 199; 157; 21])); ("amount", (VInt (1))); ("message", VNull)]) = true
+  /\ admb nc_schema 5 "MosaicDefinition" (VStruct "MosaicDefinition" [("owner_public_key", (VBytes [68; 32; 130; 60; 253; 230; 241; 194; 107; 48; 249; 14; 199; 221; 1; 228; 136; 117; 52; 162; 15; 11; 13; 4; 195; 110; 216; 14; 113; 224; 253; 119])); ("id", (VStruct "MosaicId" [("namespace_id", (VStruct "NamespaceId" [("name", (VBytes [118; 112; 235; 148; 11; 213; 51; 95; 151]))])); ("name", (VBytes [170]))])); ("description", (VBytes [97; 155; 145; 255; 201; 17; 245; 124; 206; 212; 88; 187; 191; 44; 224; 55])); ("properties", (VArr [(VStruct "SizePrefixedMosaicProperty" [("property", (VStruct "MosaicProperty" [("name", (VBytes [189; 250; 15; 240; 22; 157; 201; 87; 86; 116; 6; 102; 118; 207; 176; 180])); ("value", (VBytes [137; 2; 196; 66; 105; 218; 28; 246; 186; 102; 211; 248; 182; 212; 177; 0; 169; 234; 14; 117; 90; 92; 46; 130; 16; 36; 42; 8; 231; 7; 143]))]))]); (VStruct "SizePrefixedMosaicProperty" [("property", (VStruct "MosaicProperty" [("name", (VBytes [137; 56; 94; 176; 148; 35; 85])); ("value", (VBytes [130; 86]))]))])])); ("levy", (VStruct "MosaicLevy" [("transfer_fee_type", (VInt (2))); ("recipient_address", (VBytes [150; 232; 164; 254; 242; 58; 12; 159; 197; 175; 215; 96; 132; 55; 129; 107; 221; 10; 115; 9; 203; 74; 18; 82; 228; 218; 112; 230; 114; 15; 202; 164; 218; 30; 152; 64; 108; 24; 156; 36])); ("mosaic_id", (VStruct "MosaicId" [("namespace_id", (VStruct "NamespaceId" [("name", (VBytes [158]))])); ("name", (VBytes [81; 213; 129; 66; 4; 19; 111; 235]))])); ("fee", (VInt (9387063791620619695)))]))]) = true
+  /\ admb nc_schema 3 "NamespaceRegistrationTransactionV1" (VStruct "NamespaceRegistrationTransactionV1" [("type", (VInt (8193))); ("version", (VInt (1))); ("network", (VInt (152))); ("timestamp", (VInt (1930549411))); ("signer_public_key", (VBytes [194; 107; 48; 249; 14; 199; 221; 1; 228; 136; 117; 52; 162; 15; 11; 13; 4; 195; 110; 216; 14; 113; 224; 253; 119; 176; 118; 112; 235; 148; 11; 213])); ("signature", (VBytes [51; 95; 151; 61; 170; 216; 97; 155; 145; 255; 201; 17; 245; 124; 206; 212; 88; 187; 191; 44; 224; 55; 83; 201; 189; 250; 15; 240; 22; 157; 201; 87; 86; 116; 6; 102; 118; 207; 176; 180; 235; 137; 2; 196; 66; 105; 218; 28; 246; 186; 102; 211; 248; 182; 212; 177; 0; 169; 234; 14; 117; 90; 92; 46])); ("fee", (VInt (18446744073709551614))); ("deadline", (VInt (2891000577))); ("rental_fee_sink", (VBytes [42; 8; 231; 7; 143; 127; 137; 56; 94; 176; 148; 35; 85; 81; 130; 86; 139; 150; 232; 164; 254; 242; 58; 12; 159; 197; 175; 215; 96; 132; 55; 129; 107; 221; 10; 115; 9; 203; 74; 18])); ("rental_fee", (VInt (1))); ("name", (VBytes [218; 112; 230; 114; 15; 202; 164; 218; 30; 152; 64; 108; 24; 156; 36; 39; 158; 152; 81; 213; 129; 66; 4; 19; 111; 235; 87; 19; 193; 102; 177])); ("parent_name", (VBytes [105]))]) = true
+  /\ admb nc_schema 3 "NamespaceRegistrationTransactionV1" (VStruct "NamespaceRegistrationTransactionV1" [("type", (VInt (8193))); ("version", (VInt (1))); ("network", (VInt (152))); ("timestamp", (VInt (1675297276))); ("signer_public_key", (VBytes [255; 8; 166; 205; 144; 9; 80; 102; 167; 69; 173; 219; 109; 136; 49; 194; 176; 248; 120; 33; 20; 43; 68; 86; 85; 109; 137; 170; 130; 188; 173; 174])); ("signature", (VBytes [58; 149; 120; 250; 69; 53; 164; 20; 208; 37; 194; 75; 64; 174; 58; 193; 39; 114; 41; 136; 186; 151; 58; 234; 141; 55; 23; 151; 6; 7; 46; 211; 58; 20; 96; 122; 215; 82; 59; 230; 85; 123; 81; 52; 222; 193; 150; 129; 244; 161; 51; 106; 162; 20; 13; 5; 151; 163; 230; 200; 160; 204; 32; 32])); ("fee", (VInt (0))); ("deadline", (VInt (0))); ("rental_fee_sink", (VBytes [128; 110; 240; 182; 132; 93; 106; 157; 101; 126; 184; 41; 143; 45; 229; 46; 173; 116; 199; 157; 21; 167; 95; 162; 155; 125; 171; 51; 47; 125; 112; 10; 124; 205; 37; 137; 36; 38; 11; 5])); ("rental_fee", (VInt (18446744073709551614))); ("name", (VBytes [240; 78; 51; 167; 39; 88; 91; 76; 72; 163; 156; 54; 150; 64; 105; 72; 16; 161; 105; 91; 153; 221; 80; 24; 126; 129; 32; 228; 220; 128; 224])); ("parent_name", VNull)]) = true
   /\ Nat.leb 10 (length (flat_names sc_schema)) = true /\ Nat.leb 5 (length (flat_names nc_schema)) = true
-  /\ Nat.leb 71 (length (ok_names sc_schema)) = true /\ Nat.leb 14 (length (ok_names nc_schema)) = true.
+  /\ Nat.leb 71 (length (ok_names sc_schema)) = true /\ Nat.leb 33 (length (ok_names nc_schema)) = true.
 Proof. vm_compute. repeat split; reflexivity. Qed.
